@@ -35,7 +35,7 @@ from . import refschema as _rsm  # noqa: E402
 
 _rsm.RESET_HOOKS.append(_reset)
 
-TOTALITY = ("basic", "list", "strict", "title", "iso", "table", "isolist", "topmarks")
+TOTALITY = ("basic", "list", "strict", "title", "iso", "table", "isolist", "topmarks", "section")
 FLEXIBLE = ("basic", "list", "iso", "isolist", "table", "topmarks")
 ISOLATING = ("iso", "table", "isolist")
 
@@ -70,6 +70,9 @@ def catalogue():
         },
     )
     variant("isolist", {"list_item": {**base["list_item"], "isolating": True}})
+    # a container whose first child is fixed: it shares its first child type (heading) with
+    # blockquote / doc at a different edge position of their expressions
+    variant("section", {"section": {"group": "block", "content": "heading block*"}})
     variant("topmarks", {"doc": {**base["doc"], "marks": "_"}})
     out["structure"] = Sch(
         "structure",
@@ -287,6 +290,13 @@ def random_schema(rnd, tries=60, **kw):
     stats = {"rejected_by_ref": 0, "not_well_founded": 0, "library_rejected": 0, "not_default_fillable": 0}
     for _ in range(tries):
         spec = random_spec(rnd, **kw)
+        if _LAST_SPEC and rnd.random() < 0.25:
+            # a twin of the schema built before in this process: same node names in the same
+            # order, same content-expression strings, other group memberships / mark specs (two
+            # schemas alive at once must not influence each other)
+            tw = twin_spec(rnd, _LAST_SPEC[0])
+            if tw is not None:
+                spec = tw
         try:
             ref = RefSchema(spec)
         except SchemaRejected:
@@ -324,8 +334,37 @@ def random_schema(rnd, tries=60, **kw):
         if not _can_generate(sc):
             stats["no_document_generated"] = stats.get("no_document_generated", 0) + 1
             continue
+        _LAST_SPEC[:] = [spec]
         return sc
     return None
+
+
+_LAST_SPEC = []
+
+
+def twin_spec(rnd, spec):
+    import copy
+
+    tw = {"nodes": {n: dict(v) for n, v in spec["nodes"].items()}}
+    if "marks" in spec:
+        tw["marks"] = copy.deepcopy(spec["marks"])
+    grouped = [n for n, v in tw["nodes"].items() if v.get("group") and n != "text" and not v.get("inline")]
+    plain = [n for n, v in tw["nodes"].items() if not v.get("group") and n not in ("doc", "text") and not v.get("inline")]
+    if not grouped:
+        return None
+    changed = False
+    if plain and rnd.random() < 0.7:
+        src = rnd.choice(grouped)
+        tw["nodes"][rnd.choice(plain)]["group"] = tw["nodes"][src]["group"]
+        changed = True
+    if len(grouped) > 1 and rnd.random() < 0.6:
+        del tw["nodes"][rnd.choice(grouped)]["group"]
+        changed = True
+    for n, v in tw["nodes"].items():
+        if "marks" in v and rnd.random() < 0.3:
+            v["marks"] = rnd.choice(["_", ""])
+            changed = True
+    return tw if changed else None
 
 
 def _can_generate(sc):
@@ -440,6 +479,12 @@ def wrap_schema(rnd, tries=30):
             nodes[c] = sp
         a, b = rnd.choice(conts), rnd.choice(conts)
         nodes["doc"] = {"content": rnd.choice(["({a} | {b})+", "{a}+", "{a} {b}*", "({a} | {b} | l0)+"]).format(a=a, b=b)}
+        if rnd.random() < 0.4:
+            # a textblock whose inline content includes an inline node that holds block
+            # containers (a footnote-like node): wrapper chains lead from inline positions to blocks
+            nodes["ic"] = {"inline": True, "content": rnd.choice(["{a}+", "{a}", "({a} | {b})+"]).format(a=rnd.choice(conts), b=rnd.choice(conts))}
+            nodes["tb"] = {"content": "(text | ic)*"}
+            nodes["doc"] = {"content": "(" + nodes["doc"]["content"] + " | tb)+"} if rnd.random() < 0.5 else {"content": "({a} | tb)+".format(a=a)}
         order = list(nodes)
         rnd.shuffle(order)
         sc = _mk_sch({"nodes": {n: nodes[n] for n in order}}, "random")
